@@ -38,13 +38,17 @@ fn c06_fence_pieces_reassemble() {
     if let Some((ticks, lang, cfg)) = extract_code_block_start(line) {
         let (lb, tb, gb, cb) = (line.as_bytes(), ticks.as_bytes(), lang.as_bytes(), cfg.as_bytes());
         assert!(tb.len() + gb.len() + cb.len() <= lb.len());
-        // ticks is the prefix, config the suffix
+        // ticks is the prefix; config starts at the first `{` after it and runs to the end of the line up to trailing blanks
         let mut i = 0;
         while i < tb.len() {
             assert!(lb[i] == tb[i]);
             i += 1;
         }
-        let off = lb.len() - cb.len();
+        let mut off = tb.len();
+        while off < lb.len() && lb[off] != b'{' {
+            off += 1;
+        }
+        assert!(cb.is_empty() || off + cb.len() <= lb.len());
         let mut i = 0;
         while i < cb.len() {
             assert!(lb[off + i] == cb[i]);
